@@ -124,7 +124,7 @@ def _chunk(items):
                                 continue
                             exp = v['prop'] + between + f['out'] + after
                             if _norm(g) != _norm(exp):
-                                bad.append(('keyword (function)', dict(case, abbr=ab, expected=exp, actual=g)))
+                                bad.append(('keyword (function)', dict(case, abbr=ab, expected=exp, actual=g, flags={'keyword_name_has_digit': bool(f.get('digit'))})))
                 # scopes
                 if not marking and syn == 'css' and key != 'lg':      # 'lg' is the hard-wired gradient shortcut, resolved before table and scope
                     try:
